@@ -240,6 +240,9 @@ structure IState where
   reg       : Reg := Reg.empty
   q         : Queues := emptyQ
   chans     : Nat → List (List Msg) := fun _ => []
+  /-- the reader goroutine is inside `Send` on the full slice channel of this type with this batch: it goes on
+  when the protocol receives from the channel -/
+  stuck     : Option (Nat × List Msg) := none
 
 def IState.cfg (s : IState) : Cfg := { isRoot := s.isRoot, nChildren := s.nChildren, agg := s.reg.flags }
 
@@ -262,7 +265,7 @@ def dispatch (s : IState) (mt : Nat) (b : List Msg) : IState × Outcome :=
       | .slice =>
         if (s.chans mt).length < cap then
           ({ s with chans := fun t => if t = mt then s.chans mt ++ [b] else s.chans t }, .sent [b])
-        else (s, .blocked)
+        else ({ s with stuck := some (mt, b) }, .blocked)
       | .plain => (s, .dropped)
     else
       match f with
@@ -292,9 +295,15 @@ def istep (s : IState) (m : Msg) : IState × Option Outcome :=
     let d := dispatch s' m.ty b
     (d.1, some d.2)
 
-/-- the protocol empties the channel of type `mt` -/
+/-- the protocol empties the channel of type `mt`; a batch whose `Send` was waiting for room goes through and is
+received as well (nothing is lost by a slow reader) -/
 def irecv (s : IState) (mt : Nat) : IState × List (List Msg) :=
-  ({ s with chans := fun t => if t = mt then [] else s.chans t }, s.chans mt)
+  match s.stuck with
+  | some (t', b) =>
+    if t' = mt then
+      ({ s with chans := fun t => if t = mt then [] else s.chans t, stuck := none }, s.chans mt ++ [b])
+    else ({ s with chans := fun t => if t = mt then [] else s.chans t }, s.chans mt)
+  | none => ({ s with chans := fun t => if t = mt then [] else s.chans t }, s.chans mt)
 
 /-- the reader goroutine of one instance over a list of accepted messages: what became of every released batch -/
 def irun (s : IState) : List Msg → IState × List Outcome
@@ -436,7 +445,8 @@ Several instances, registrations and channels:
 `inst <id> <root|inner> <k> reg <script>` one whose constructor runs the registration
 script (`RegisterChannels` uses `Generated.defaultChannelLength`) (reply: `ok`/`err` per variadic call); `imsg <id> <type> <p|child> <value>` hands a message to that
 instance (reply: the handler calls it caused, `;`-separated; for an instance that empties its channels after every
-message also what the channels held); `recv <id>` empties the instance's channels (reply: the items). -/
+message also what the channels held; `blocked` when the reader goroutine waits inside `Send` on a full slice
+channel); `recv <id>` empties the instance's channels (reply: the items, a waiting batch included). -/
 def step (s : State) (toks : List String) : State × String :=
   match toks with
   | ["cfg", r, n, aggs] =>
@@ -455,6 +465,13 @@ def step (s : State) (toks : List String) : State × String :=
         | some b => ",".intercalate (b.map showMsg))
     | _, _, _ => (s, "bad-op")
   | ["rereg"] => (s, "ok")   -- an equal copy of the tree is registered again: nothing changes
+  -- `window`: the server learns the tree while the first message is between the tree lookup and the parking
+  | ["inst", id, r, n, "std", "window"] => step s ["inst", id, r, n, "std"]
+  -- the tree of the instance is registered again (every start of a protocol on it does that): nothing changes
+  | ["ireg", id] =>
+    match id.toNat?.bind (lookup s.insts) with
+    | some _ => (s, "ok")
+    | none => (s, "bad-op")
   | ["inst", id, r, n, "std"] =>
     match id.toNat?, n.toNat?, (if r = "root" then some true else if r = "inner" then some false else none) with
     | some id, some n, some isRoot =>
@@ -478,6 +495,7 @@ def step (s : State) (toks : List String) : State × String :=
       match lookup s.insts id with
       | none => (s, "bad-op")
       | some x =>
+        if x.st.stuck.isSome then (s, "stuck") else   -- the reader is inside `Send`: the harness sends nothing
         let r := istep x.st { ty := t, src := src, val := v }
         match r.2 with
         | some .crash => ({ s with insts := store s.insts id { x with st := r.1 } }, "crash")
